@@ -28,7 +28,8 @@ one() {
   else
     own=$(echo $n | sed 's/^r[0-9]*_//' | cut -c1-3)
     if echo "$hits" | grep -q "$own:1"; then v=CAUGHT; else v=MISSED; fi
-    echo "$n: $v ($hits)"
+    first=$(echo "$out" | grep ": $own\.R" | head -1 | cut -c1-220 | tr '|' '/')
+    echo "$n: $v ($hits) :: $first"
   fi
 }
 export -f one
